@@ -103,6 +103,8 @@ type OpIn struct {
 	Unscoped bool      `json:"unscoped,omitempty"`
 	Vals     [][]int64 `json:"vals,omitempty"` // per owner: target ids, 0 = a new (unsaved) record
 	Del      []int64   `json:"del,omitempty"`
+	SamePtr  bool      `json:"same_ptr,omitempty"` // a repeated existing target is THE SAME object (same pointer), not an equal copy
+	AsSlice  bool      `json:"as_slice,omitempty"` // struct handle / Delete: pass the targets as ONE slice argument
 }
 
 type Link struct {
@@ -395,10 +397,15 @@ func (e *Env) run(in Input) Result {
 			for _, v := range op.Vals {
 				sl := reflect.MakeSlice(reflect.SliceOf(reflect.PtrTo(r.Elem)), 0, len(v))
 				var os []reflect.Value
+				same := map[int64]reflect.Value{}
 				for _, id := range v {
-					p := reflect.New(r.Elem)
-					p.Elem().FieldByName("ID").SetInt(id)
-					p.Elem().FieldByName("Name").SetString(fmt.Sprint("v", id))
+					p, ok := same[id]
+					if !ok || !op.SamePtr || id == 0 {
+						p = reflect.New(r.Elem)
+						p.Elem().FieldByName("ID").SetInt(id)
+						p.Elem().FieldByName("Name").SetString(fmt.Sprint("v", id))
+						same[id] = p
+					}
 					sl = reflect.Append(sl, p)
 					os = append(os, p)
 				}
@@ -410,7 +417,7 @@ func (e *Env) run(in Input) Result {
 					} else {
 						args = append(args, sl.Interface())
 					}
-				case in.Single:
+				case in.Single && !op.AsSlice:
 					for _, o := range os {
 						args = append(args, o.Interface())
 					}
@@ -428,6 +435,8 @@ func (e *Env) run(in Input) Result {
 			err = assoc.Replace(mkArgs()...)
 		case "delete":
 			var args []interface{}
+			sameDel := map[int64]reflect.Value{}
+			delSlice := reflect.MakeSlice(reflect.SliceOf(reflect.PtrTo(r.Elem)), 0, len(op.Del))
 			for di, id := range op.Del {
 				if id < 0 { // the k-th record created earlier in this history
 					if k := int(-id) - 1; k < len(created) {
@@ -437,15 +446,23 @@ func (e *Env) run(in Input) Result {
 					}
 					op.Del[di] = id
 				}
-				p := reflect.New(r.Elem)
-				p.Elem().FieldByName("ID").SetInt(id)
+				p, ok := sameDel[id]
+				if !ok || !op.SamePtr {
+					p = reflect.New(r.Elem)
+					p.Elem().FieldByName("ID").SetInt(id)
+					sameDel[id] = p
+				}
+				delSlice = reflect.Append(delSlice, p)
 				args = append(args, p.Interface())
+			}
+			if op.AsSlice && len(args) > 0 {
+				args = []interface{}{delSlice.Interface()}
 			}
 			err = assoc.Delete(args...)
 		case "clear":
 			err = assoc.Clear()
 		}
-		ex := OpIn{Op: op.Op, Unscoped: op.Unscoped, Del: op.Del}
+		ex := OpIn{Op: op.Op, Unscoped: op.Unscoped, Del: op.Del, SamePtr: op.SamePtr, AsSlice: op.AsSlice}
 		for vi, os := range objs {
 			ids := []int64{}
 			for oi, o := range os {
@@ -621,8 +638,13 @@ func genInput(r *lib.Rng, maxOps int, edge bool) Input {
 					}
 					v = append(v, t)
 				}
+				// a target repeated INSIDE the list and followed by further targets
+				if !singleValued && len(v) >= 2 && v[0] != 0 && r.Chance(1, 4) {
+					v = append([]int64{v[0]}, v...)
+				}
 				op.Vals = append(op.Vals, v)
 			}
+			op.SamePtr, op.AsSlice = r.Bool(), r.Bool()
 		case "delete":
 			k := r.Range(1, 3)
 			if edge && r.Chance(1, 4) {
@@ -631,6 +653,10 @@ func genInput(r *lib.Rng, maxOps int, edge bool) Input {
 			for j := 0; j < k; j++ {
 				op.Del = append(op.Del, lib.Pick(r, append(append([]int64{}, in.Targets...), 90, -1, -2)))
 			}
+			if len(op.Del) >= 2 && r.Chance(1, 3) {
+				op.Del = append([]int64{op.Del[0]}, op.Del...)
+			}
+			op.SamePtr, op.AsSlice = r.Bool(), r.Bool()
 		}
 		in.Ops = append(in.Ops, op)
 	}
@@ -860,6 +886,6 @@ func main() {
 		out.Count("known_shape", sig(in))
 		add(kind, in)
 	}
-	out.Extra["rule"] = "cases = histories of 1..8 (thorough 12) operations Append/Replace/Delete/Clear, each scoped or Unscoped, on one relation of kind {has one, has many, polymorphic has many and polymorphic has one (next to rows of ANOTHER owner type that carry the same owner ids, and that may be moved into the relation or named in its Delete), belongs to, many2many with struct elements, many2many with pointer elements}, through db.Model(&owner) or db.Model(&owners) with 1..3 owners that start without links, next to 0..2 outside owners with existing links; targets are new records, existing unlinked rows, rows linked to the same owner, rows linked to outside owners, and duplicates; Count(), Find(), raw foreign keys / join rows of the handle AND of every other owner / owner type, the target table and the in-memory fields are read after every operation; domain: for has one / has many / polymorphic a target is never given to two different owners of one handle; distinct = distinct (relation, handle, table sizes, operation sequence with sizes) shapes; non-trivial = the stored links change at least twice"
+	out.Extra["rule"] = "cases = histories of 1..8 (thorough 12) operations Append/Replace/Delete/Clear, each scoped or Unscoped, on one relation of kind {has one, has many, polymorphic has many and polymorphic has one (next to rows of ANOTHER owner type that carry the same owner ids, and that may be moved into the relation or named in its Delete), belongs to, many2many with struct elements, many2many with pointer elements}, through db.Model(&owner) or db.Model(&owners) with 1..3 owners that start without links, next to 0..2 outside owners with existing links; targets are new records, existing unlinked rows, rows linked to the same owner, rows linked to outside owners, and duplicates (equal copies or THE SAME object repeated inside a slice argument and followed by further targets; variadic or one slice argument); Count(), Find(), raw foreign keys / join rows of the handle AND of every other owner / owner type, the target table and the in-memory fields are read after every operation; domain: for has one / has many / polymorphic a target is never given to two different owners of one handle; distinct = distinct (relation, handle, table sizes, operation sequence with sizes) shapes; non-trivial = the stored links change at least twice"
 	lib.Must(out.Flush())
 }
